@@ -155,7 +155,7 @@ CLASSES = {
             "_emit_run_start_sync": {"pure": False, "returns": FIXTUP(STR, STR), "raises": []},
             "_emit_run_end_sync": {"pure": False, "returns": NONE_T, "raises": []},
             "_shutdown_dispatcher_sync": {"pure": False, "returns": NONE_T, "raises": []},
-            "_execute_graph_impl": {"pure": False, "returns": OBJ("GraphState"), "raises": ["Exception"]},
+            "_execute_graph_impl": {"pure": False, "returns": OBJ("GraphState"), "raises": ["BaseException"]},
         },
     },
     "AsyncFunctionNodeExecutor": {
@@ -195,7 +195,7 @@ CLASSES = {
             "_emit_run_start_async": {"pure": False, "returns": FIXTUP(STR, STR), "raises": []},
             "_emit_run_end_async": {"pure": False, "returns": NONE_T, "raises": []},
             "_shutdown_dispatcher_async": {"pure": False, "returns": NONE_T, "raises": []},
-            "_execute_graph_impl_async": {"pure": False, "returns": OBJ("GraphState"), "raises": ["Exception", "PauseExecution"]},
+            "_execute_graph_impl_async": {"pure": False, "returns": OBJ("GraphState"), "raises": ["BaseException", "PauseExecution"]},
             "_get_concurrency_limiter": {"pure": False, "returns": ANY, "raises": []},
             "_set_concurrency_limiter": {"pure": False, "returns": ANY, "raises": []},
             "_reset_concurrency_limiter": {"pure": False, "returns": NONE_T, "raises": []},
@@ -290,6 +290,11 @@ OPAQUE = {
     # graph/input_spec.py:_active_from_selection (worklist over networkx predecessors / descendants, outside the subset;
     # assumed contract A4, its behaviour is decided by the bounded C16 harness): total, a set of names
     "_active_from_selection": {"raises": [], "returns": SET(STR)},
+    # both supersteps at their call sites in the runner loops (their own contracts, c_superstep.py, are verified under
+    # call-site preconditions the loops do not discharge): any BaseException may leave a step (a node's exception wrapped in
+    # ExecutionError, a pause signal, an interpreter-level signal); the result is a state object
+    "run_superstep_sync": {"raises": ["BaseException"], "returns": OBJ("GraphState")},
+    "run_superstep_async": {"raises": ["BaseException"], "returns": OBJ("GraphState"), "coroutine": True},
     # runners/_shared/validation.py:_group_entrypoints_by_scc (networkx strongly connected components, outside the subset;
     # assumed contract A4): total, a mapping from a cycle index to the entry points of that cycle
     "_group_entrypoints_by_scc": {"raises": [], "returns": DICT(INT, SEQ(STR))},
